@@ -103,7 +103,7 @@ def check(ctx):
     ctx.assume("SolverOptions.terminal_psi default 0 is the 'normal-metal contact'; pinning of v=0 is exact also in floating point (z=w=0)")
 
 
-def wiring(ctx):
+def wiring(ctx, rule="R06.3", only_flag=False):
     repo = ctx.repo
     fi = repo.func(SOLVER, "TDGLSolver.__init__")
     fn = fi.node
@@ -119,9 +119,13 @@ def wiring(ctx):
     fp = kw.get("fix_psi")
     fp_txt = expanded_text(fn, fp) if fp is not None else None
     ok = fp_txt in ("options.terminal_psi is not None", "self.options.terminal_psi is not None")
-    ctx.ob("R06.3", "fix_psi == (options.terminal_psi is not None)", ok, detail=fp_txt, where=fi.fq,
+    ctx.ob(rule, "fix_psi == (options.terminal_psi is not None)", ok, detail=fp_txt, where=fi.fq,
            construct="MeshOperators(fix_psi=...)", loc=loc(fi, call),
-           message=f"fix_psi is `{fp_txt}`", consequence="terminals are pinned when terminal_psi is None, or free when it is set")
+           message=f"fix_psi is `{fp_txt}`", consequence="terminals are pinned when terminal_psi is None, or free when it is set" if rule == "R06.3" else
+           "with terminal_psi=None the covariant Laplacian the solver uses gets identity rows on the terminal sites: it is no longer "
+           "Hermitian / negative semi-definite in the area-weighted inner product (the identities hold for the builders, not for the operators in use)")
+    if only_flag:
+        return
     # fixed_sites: every definition of the name is concatenate(site_indices of terminal_info) or an empty array
     asg = assignments(fn)
     ok = False
